@@ -127,6 +127,7 @@ def run_variant(case, variant):
                 ring.repair_time_dist = net.FixedDist(dt)
                 ring.fail(curr_time - prev_time)
         if k == k0:
+            saved["energised"] = bool(faulted.connected)      # (a fault on a line that is already out of service trips nothing)
             faulted.repair_time_dist = net.FixedDist(F(rep))
             faulted.fail(curr_time - prev_time)
         if variant == "sensor-cut-other-repair" and other is not None and k == k_other:
@@ -148,6 +149,8 @@ def run_variant(case, variant):
     times = [dt * k for k in range(1, n_inc + 1)]
     with c17._Exact():
         sim.run_sequence(TimeStamp(), times, TimeUnit.HOUR, cb, False)
+    if not saved.get("energised", True):
+        return None          # the earlier contingency had taken the line out of service: the main fault interrupted nobody
     fed = fed_after_isolation(ps, None, faulted)
     out = {b.name: b.acc_outage_time.get_hours() for b in ps.buses if b.name != "B0"}
     return {"fed": fed, "outage": out}
